@@ -21,7 +21,7 @@ ENTRY = {
         ],
         "design_ref": "DESIGN.md 3 (C14)",
         "technique": "Coq refinement proof (simulation relation, induction over histories) + differential correspondence with the real DefaultStore",
-        "level_text": "Machine-checked proof (Coq 8.16.1, closed under the global context) that the executable model of DefaultStore refines a height-indexed map for ALL histories of operations, reopenings, crashes inside operations and transient write faults inside operations (C14_refines_full: a crashed operation happened entirely or not at all; an operation whose write attempt failed returned an error and left the map exactly as it was), that the key builders of the seven record kinds are jointly injective (C14_keys_disjoint_full), that the recorded height never decreases (C14_height_monotone_full), that a read by hash returns the block with that hash or not-found (C14_by_hash_full; true only after the fix: commit recorded in known_findings.json), that a block save is all-or-nothing (C14_save_atomic_full), that a met write fault leaves the database image unchanged and returns an error and an unmet one is an ordinary operation (C14_fault_no_effect_full, C14_fault_not_met_full), and that every acknowledged SetHeight and every height Height() reported survives any continuation incl. reopen, crash and faults (C14_acked_height_durable_full, C14_reported_height_durable_full). All theorems are _full. The model is tied to /repo on every run: the real store is driven with generated histories (map datastore and on-disk badger; crashes cut between recorded datastore writes; write faults refuse one write attempt and return an error while the store stays open; a fault/read/retry/read/reopen/read stream over the four writing operations), and results, final database image, write log and the refused write attempts are compared with the model by vm_compute; an independent Go oracle evaluates latest-acknowledged-write, atomicity, nothing-of-a-failed-write-is-readable, write errors are reported, and reported/acknowledged heights survive a reopen, directly on the real store (every history ends with reads, a close/reopen and the same reads again).",
+        "level_text": "Machine-checked proof (Coq 8.16.1, closed under the global context) that the executable model of DefaultStore refines a height-indexed map for ALL histories of operations, reopenings, crashes inside operations and transient write faults inside operations (C14_refines_full: a crashed operation happened entirely or not at all; an operation whose write attempt failed returned an error and left the map exactly as it was), that the key builders of the seven record kinds are jointly injective (C14_keys_disjoint_full), that the recorded height never decreases (C14_height_monotone_full), that a read by hash returns the block with that hash or not-found (C14_by_hash_full; true only after the fix: commit recorded in known_findings.json), that a block save is all-or-nothing (C14_save_atomic_full), that a met write fault leaves the database image unchanged and returns an error and an unmet one is an ordinary operation (C14_fault_no_effect_full, C14_fault_not_met_full), and that every acknowledged SetHeight and every height Height() reported survives any continuation incl. reopen, crash and faults (C14_acked_height_durable_full, C14_reported_height_durable_full). All theorems are _full. The model is tied to /repo on every run: the real store is driven with generated histories (map datastore and on-disk badger; crashes cut between recorded datastore writes; write faults refuse one write attempt and return an error while the store stays open; a fault/read/retry/read/reopen/read stream over the four writing operations; every pool header has two same-hash siblings = the same Header with another Signature / Signer in the SignedHeader, compared by the pool index of the stored bytes, and a same-hash overwrite stream saves a height, reads it in some of the five ways, saves a same-hash sibling with the same or other data and signature record, and reads it in all five ways before and after a reopen), and results, final database image, write log and the refused write attempts are compared with the model by vm_compute; an independent Go oracle evaluates latest-acknowledged-write, atomicity, nothing-of-a-failed-write-is-readable, write errors are reported, and reported/acknowledged heights survive a reopen, directly on the real store (every history ends with reads, a close/reopen and the same reads again).",
         "level_note": "Trusted: Coq kernel + vm_compute; the hand-written model is tied to the code only by the differential check (300 histories quick / 9600 thorough); datastore contract (durable Put, atomic batch, a failed write writes nothing); SHA-256 collision freedom; values compared as projections (pool indices), hashes as 4-byte projections; metadata keys restricted to path.Clean-stable keys; one caller at a time (interleavings of concurrent SetHeight calls are not modelled).",
     },
 }
